@@ -104,6 +104,19 @@ CLAIMED["C18"] = (
     "non-dyadic steps is named, not compared.",
     "Lean 4 proof over rational model + exact differential correspondence", "DESIGN.md §6 C18")
 
+CLAIMED["C19"] = (
+    "Lean 4 theorems over the reals about definitions REGENERATED from the Python source on every run (harness/translate.py, AST -> Lean): "
+    "spherical->cartesian lies on the unit sphere and ignores whole turns; direction cosines are normalised and the declared inverse pair "
+    "round-trips on vectors with unit third component; the grating law, Snell's law and unit direction-cosine triples; the Sellmeier "
+    "formula; the Zemax chain equals the published formula and reduces to the glass formula at reference T,P; and, for the hand model of "
+    "CartesianToSpherical with arctan2 := Complex.arg, latitude in [-90,90], longitude in [0,360) resp. [-180,180], poles -> longitude 0, "
+    "and s2c(c2s v) = v/|v| for every non-zero vector and both wrap settings (full statement, no abstract-atan2 fallback needed). "
+    "A changed constant, sign, precedence or index in the source changes the generated definitions and breaks a proof; the Float "
+    "instantiation of every definition is compared with the Python function (<= 4 ulp) and an independent oracle checks the identities.",
+    "Trusted: Lean kernel; axioms propext/Classical.choice/Quot.sound (Mathlib reals); the translator (whitelist, fails closed); libm rounding "
+    "is named, not proved.",
+    "Lean 4 proof over translator-regenerated model (Mathlib reals) + Float correspondence", "DESIGN.md §3, §6 C19")
+
 NOT_YET = "check not built yet in this round; will be claimed once its Lean model, theorems and correspondence run green"
 
 
@@ -126,7 +139,7 @@ def main():
         })
     man = {
         "version": 1,
-        "setup_cmd": "cd lean && lake build GwcsModel GwcsProofs driver",
+        "setup_cmd": "/venv/bin/python harness/translate.py && cd lean && lake build GwcsModel GwcsProofs driver",
         "hooks": {
             "guard": "GWCS_VERIF",
             "enable": "no hooks: checks import gwcs from /repo's working tree and observe it from the harness side (monkeypatching, sys.settrace)",
